@@ -58,6 +58,8 @@ type Program struct {
 	reachReg  map[*ssa.Function]reachInfo
 	modFuncs  []*ssa.Function // all functions (incl. anonymous) of module packages
 	nAllFuncs int
+
+	fieldOwnerCache map[*types.Var]string // per program: *types.Var identities differ between loads
 }
 
 // Load type-checks ./larking and ./health in dir (with an optional overlay) and
